@@ -64,6 +64,8 @@ func checkC09(c *Ctx) {
 	c.Rule("C09.R12", "model evaluation: for every entry of the bundled proj4js datum table, +datum=<name> parses to the same semi-axes, eccentricity and stored shift values as +ellps=<the entry's ellipsoid> +towgs84=<the entry's shift> (a named datum brings its own ellipsoid and shift, as in proj4js deriveConstants)")
 	c09namedDatumModel(c, "C09.R12", a.js)
 	c.Floor("C09.R12", 10)
+	premiseEqual(c, "C09.R13", "a transformation between references that Equal wrongly holds equal is the identity instead of what proj4js computes")
+	c.Floor("C09.R13", 9)
 	c.Floor("C09.R7", 4)
 	c.Floor("C09.R6", 1)
 	c.Floor("C09.R1", 60)
